@@ -185,6 +185,10 @@ _MAP_NAMES = {'Dict', 'Mapping', 'MutableMapping', 'DefaultDict', 'OrderedDict',
               'defaultdict'}
 _TRANSPARENT = {'Optional', 'Union', 'Final', 'ClassVar', 'Annotated'}
 
+# result types of a few external functions (only where a rule needs the type of the result)
+EXT_RETURNS = {'zlib.decompress': 'bytes', 'zlib.compress': 'bytes', 'os.listdir': 'list', 'str': 'str', 'repr': 'str',
+               'bytes': 'bytes'}
+
 BUILTIN_METHOD_NAMES: Set[str] = set()
 for _t in (str, bytes, list, dict, set, frozenset, tuple, int, float):
     BUILTIN_METHOD_NAMES.update(n for n in dir(_t) if not n.startswith('__'))
@@ -1046,7 +1050,8 @@ class Repo:
                 if g is not None:
                     out |= self.return_type(g)
             elif a[0] == 'extname':
-                out.add(('inst', a[1]))  # calling an external class/function: treat as instance of that name
+                # calling an external class/function: instance of that name, or the documented result type
+                out.add(('inst', EXT_RETURNS.get(a[1], a[1])))
             elif a[0] == 'extattr':
                 # methods of builtin containers
                 if a[2] in ('values',) :
